@@ -69,6 +69,9 @@ PROP = [  # (subject fragment, property ids, key that used to be reported)
  ("with --hyperlinks the file path was printed in place of the line number when the absolute path is unknown", 'C19,C05', "(delta started in a directory that has been removed; found from a sub-agent's note, not generated by a check)"),
  ("an empty line of grep output without a line number was not shown", 'C16', "(rg --json record with \"line_number\":null and empty text; found from a sub-agent's note, not generated by a check)"),
  ("--hunk-header-style raw removed the line numbers from grep output", 'C16', "c16:line-number:* (found from a sub-agent's note; the option is varied now)"),
+ ("blame line whose code looks like the end of blame metadata was split at the wrong place", 'C17', "c17:code (code holding 'timestamp number)'; found from a sub-agent's note; such code is generated now)"),
+ ("the same for a one-character author name (blame metadata ends at the first timestamp)", 'C17', "c17:code (author of one character; found by the C17 check after the previous fix)"),
+ ("blame lines of ignored revisions ('?' / '*' before the hash) were not recognised", 'C17', "(blame.markIgnoredLines / markUnblamableLines; found from a sub-agent's note)"),
  ("lines differing by a zero-width character were paired at --max-line-distance 0", 'C06', "c06:distance-0-pairing / :sbs ('<U+0308>key' paired with ' key   ' at distance 0; found by the thorough tier)"),
 ]
 log = subprocess.run(['git', '-C', '/repo', 'log', '--format=%H%x09%s', '--reverse'], stdout=subprocess.PIPE).stdout.decode().splitlines()
